@@ -5,8 +5,8 @@ EXTENDS Dispatch, Json
 
 CONSTANTS MaxHandlers, MaxFail
 
-OutOpts == [id : {0}, dir : {"out"}, ty : {"ALL", "V", "0"}, accept : BOOLEAN, when : {"pre", "post"}]
-InOpts  == [id : {0}, dir : {"in"},  ty : {"ALL", "1", "D"}, accept : BOOLEAN, when : {"post"}]
+OutOpts == [id : {0}, dir : {"out"}, ty : {"ALL", "V", "0"}, accept : BOOLEAN, when : {"pre", "post"}, mutate : BOOLEAN]
+InOpts  == [id : {0}, dir : {"in"},  ty : {"ALL", "1", "D"}, accept : BOOLEAN, when : {"post"}, mutate : {FALSE}]
 
 VARIABLES hs, failAt
 vars == <<hs, failAt>>
